@@ -70,6 +70,8 @@ pub struct Config {
 	pub stale_coinbase: bool,
 	/// invoices a wallet issues and pays itself (same or other account)
 	pub self_invoice: bool,
+	/// a third account per wallet
+	pub third_account: bool,
 }
 
 pub struct Viol {
@@ -118,7 +120,12 @@ impl<'a> History<'a> {
 		let mut accts = vec![];
 		for i in 0..n {
 			let _ = w.wallets[i].create_account("acct1");
-			accts.push(vec!["default".to_string(), "acct1".to_string()]);
+			let mut a = vec!["default".to_string(), "acct1".to_string()];
+			if cfg.third_account {
+				let _ = w.wallets[i].create_account("acct2");
+				a.push("acct2".to_string());
+			}
+			accts.push(a);
 		}
 		History {
 			w,
